@@ -39,6 +39,8 @@ public:
    size_t GetOrigLine() const;
    size_t GetOrigCol() const;
    size_t GetOrigPrevSp() const;
+   size_t GetOrigColEnd() const;
+   void SetOrigColEnd(size_t col);
    void SetOrigPrevSp(size_t col);
    size_t GetColumn() const;
    void SetColumn(size_t col);
